@@ -1,10 +1,10 @@
 \* quick, top-file: every tree of <= 2 sub-directories out of {.idea, east, tea} x 2 languages x 3 file
 \* options (up to 3 files with ties) per (directory, language), --top-size 0/1/2, DIR passed as "tree"
-\* and as "w/tree" (the spelling with a separator exposes the TrimLeft cutset defect, tagged)
+\* (spellings of DIR with a separator, which expose the tagged TrimLeft cutset defect: thorough cfgs)
 SPECIFICATION Spec
 CONSTANTS
   Shape = "top2q"
-  Roots = {"tree", "w/tree"}
+  Roots = {"tree"}
   ExtFilters = {"none"}
   Tops = {0, 1, 2}
 INVARIANTS C16_RowPerDirectory C16_CellsExact C16_SummaryIsSum C16_AgreesWithBase C16_RunTargetsCurrentDir
